@@ -534,6 +534,7 @@ type Contract struct {
 	Fresh    []string // results / places declared fresh (not aliasing any input)
 	MaybeNil []string
 	Uses     []string // lemmas (by name) assumed as hypotheses inside this function
+	AliasSame map[string]bool // "a|b": aliased slices a and b start at the same element when they share memory
 	Afters   map[string][]*Clause // "pkg.F#k" -> assertions proved (then assumed) right after the block-level statement containing the k-th call of pkg.F
 	Hide     []string // spec functions whose defining axioms (`;@ defines f` in the prelude) are not shipped with this function's VCs
 	Inlines  []string          // lemma functions: callees to execute by their bodies although they have contracts
@@ -968,8 +969,18 @@ func (cs *ContractSet) ReadFile(path, pkgName string, external bool) error {
 				cur.Reads[name] = [2]int64{lo, hi}
 			case "alias":
 				f := strings.Fields(rest)
+				if len(f) == 3 && f[2] == "same" {
+					// `alias a b same`: when the two slices share memory they start at the same element
+					// (call sites prove: disjoint, or equal offsets); the alias variant is verified with equal offsets
+					if cur.AliasSame == nil {
+						cur.AliasSame = map[string]bool{}
+					}
+					cur.AliasSame[f[0]+"|"+f[1]] = true
+					cur.AliasSame[f[1]+"|"+f[0]] = true
+					f = f[:2]
+				}
 				if len(f) != 2 {
-					return fmt.Errorf("%s: alias a b", l.pos)
+					return fmt.Errorf("%s: alias a b [same]", l.pos)
 				}
 				cur.Aliases = append(cur.Aliases, [2]string{f[0], f[1]})
 			case "inline":
